@@ -264,6 +264,7 @@ def worker_send_position(vc):
 # ---- advance(): every chain takes exactly n steps -------------------------------------------------------------------
 class StepCounter(LoopSpec):
     """loops of advance(): `total` steps have been requested from every chain so far"""
+    structural = True
 
     def __init__(self, vc, name, box, per_iteration):
         super().__init__(vc)
